@@ -473,7 +473,13 @@ fn rand_ops(rng: &mut Rng, nmembers: usize, big_ok: bool) -> Vec<String> {
             // another member
             let prev = used[rng.below(used.len() as u64) as usize].clone();
             let generation = if rng.chance(2, 3) { prev.generation_id } else { rand_u64(rng) };
-            id = ChitchatId::new(prev.node_id.clone(), generation, id.gossip_advertise_addr);
+            id = match rng.below(3) {
+                0 => ChitchatId::new(prev.node_id.clone(), generation, id.gossip_advertise_addr),
+                // a restart in place: same node id and address, another generation
+                1 => ChitchatId::new(prev.node_id.clone(), prev.generation_id.wrapping_add(1 + rng.below(3)), prev.gossip_advertise_addr),
+                // another node advertised at the same address
+                _ => ChitchatId::new(id.node_id.clone(), generation, prev.gossip_advertise_addr),
+            };
         }
         if used.contains(&id) {
             continue;
@@ -998,7 +1004,7 @@ fn fd_cfg(rng: &mut Rng) -> (String, u64, u64, u64, u64) {
     let scale = [1u64, 10, 100][rng.below(3) as usize];
     let max_iv = 512 * scale / 10 + rng.below(50) * scale; // around 0.1..10 s
     let max_iv = max_iv.max(4);
-    let init_iv = (max_iv / [1u64, 2, 4][rng.below(3) as usize]).max(1);
+    let init_iv = (max_iv / [1u64, 2, 4, 16][rng.below(4) as usize]).max(1);
     let dead_grace = 2 * (max_iv * 4 + rng.below(100) * 2);
     (format!("(fd {num} {den} {win} {max_iv} {init_iv} {dead_grace})"), max_iv, init_iv, dead_grace, num * 1000 / den)
 }
@@ -1015,6 +1021,38 @@ pub fn gen_fd(seed: u64, tier: &Tier, shard: usize, nshards: usize, emit: &mut d
         emit(new_cmd(0, &node_id(1), "c", 100, &cfg, "(pred none)", &[]));
         let members = [node_id(2), node_id(3)];
         let mut hb = [rng.range(1, 5), rng.range(1, 5)];
+        if i % 12 == 7 {
+            // directed (E): a member only ever advertised with heartbeat 0 — it never gets a sampling
+            // window, is found dead, removed after the grace period, and advertised again with heartbeat 0
+            emit(plist("hb", ["0".to_string(), p_id(&members[1]), "0".to_string()]));
+            emit("(live 0)".to_string());
+            emit(format!("(advance {})", dead_grace / 2 + 1));
+            emit("(live 0)".to_string());
+            emit(format!("(advance {})", dead_grace / 2 + 1));
+            emit("(live 0)".to_string());
+            emit(plist("hb", ["0".to_string(), p_id(&members[1]), "0".to_string()]));
+            emit("(live 0)".to_string());
+            // directed (D): the application feeds a fetched state for a member that is live with steady
+            // heartbeats (catch-up callback flow); the failure detector must not notice
+            let step = init_iv.min(max_iv).max(2);
+            for _ in 0..rng.range(4, 9) {
+                hb[0] += 1;
+                emit(plist("hb", ["0".to_string(), p_id(&members[0]), hb[0].to_string()]));
+                emit(format!("(advance {step})"));
+            }
+            hb[0] += 1;
+            emit(plist("hb", ["0".to_string(), p_id(&members[0]), hb[0].to_string()]));
+            emit("(live 0)".to_string());
+            emit(format!("(advance {})", step / 2));
+            let kv = plist("kv", [hex(b"k"), hex(b"v"), "3".to_string(), "S".to_string(), "0".to_string()]);
+            emit(plist("catchup", ["0".to_string(), p_id(&members[0]), plist("", [kv]), "5".to_string(), "0".to_string()]));
+            emit("(live 0)".to_string());
+            emit(format!("(advance {})", step - step / 2));
+            hb[0] += 1;
+            emit(plist("hb", ["0".to_string(), p_id(&members[0]), hb[0].to_string()]));
+            emit("(live 0)".to_string());
+            continue;
+        }
         if i % 6 == 5 {
             // directed: the window fills (and wraps) at a slow pace, the member dies (window reset),
             // revives with much faster heartbeats, then goes silent for good
@@ -1177,7 +1215,18 @@ pub fn gen_cluster(seed: u64, tier: &Tier, shard: usize, nshards: usize, emit: &
         }
         let steps = if tier.thorough { rng.range(20, 160) } else { rng.range(10, 70) };
         let partitioned = rng.chance(1, 3);
+        // honest external catch-ups interleaved with everything else (own random stream): the
+        // application on one node feeds another node's copy of a member through
+        // `reset_node_state_if_update`
+        let mut r3 = Rng::new(seed ^ ((i as u64) << 16) ^ 0xCA7C);
+        let with_catchup = !two_clusters && !twins && n >= 3 && r3.chance(1, 3);
         for step in 0..steps {
+            if with_catchup && r3.chance(1, 10) {
+                let to = r3.below(n);
+                let from = (to + 1 + r3.below(n - 1)) % n;
+                let owner = r3.below(n);
+                emit(format!("(catchupfrom {to} {from} {owner})"));
+            }
             let a = rng.below(n);
             let b = (a + 1 + rng.below(n - 1)) % n;
             let k = hex(keys[rng.below(keys.len() as u64) as usize].as_bytes());
@@ -1331,6 +1380,12 @@ pub fn gen_catchup(seed: u64, tier: &Tier, shard: usize, nshards: usize, emit: &
                         emit(plist("catchup", ["0".to_string(), p_id(&x), plist("", kvs), smax.to_string(), sgc.to_string()]));
                         if rng.chance(1, 4) {
                             emit("(live 0)".to_string());
+                        }
+                        if rng.chance(1, 4) {
+                            // the supplied tombstones (stored as they are, possibly below the copy's
+                            // watermark) become collectable: the GC pass must not move a frontier back
+                            emit("(advance 41)".to_string());
+                            emit("(gc 0)".to_string());
                         }
                     }
                 }
@@ -1507,6 +1562,12 @@ pub fn gen_server(seed: u64, tier: &Tier, shard: usize, nshards: usize, emit: &m
         let ndead = [0u64, 1, 2, 4][rng.below(4) as usize];
         let short = rng.chance(1, 2);
         emit(format!("(poolcase {nlive} {ndead} {} {} {})", i % 4, if short { rng.range(5, 12) } else { rng.range(3, 8) }, short as u8));
+        if i % 48 == 5 {
+            // more than two periods of the DNS refresh loop (60 s; one round per second) with a literal
+            // seed next to a host-name seed: the literal seed must stay in the seed set
+            emit(format!("(case pool-dns-{i})"));
+            emit(format!("(poolcase {} {ndead} 4 {} 0)", if i % 96 == 5 { 0 } else { nlive }, rng.range(123, 130)));
+        }
     }
     emit(format!("(case server-{shard})"));
     for i in 0..ncases {
@@ -1576,6 +1637,16 @@ pub fn gen_udp(seed: u64, tier: &Tier, shard: usize, nshards: usize, emit: &mut 
         let mut rng = Rng::new(seed ^ ((i as u64) << 20) ^ 0x0D9);
         emit(format!("(case udp-{i})"));
         let nops = rng.range(2, 10);
+        if i % 8 == 1 {
+            // directed: a data-carrying reply for a node of the own cluster fails at the OS level, and the
+            // very next datagram of the socket is the rejection of a foreign SYN (C16 on the wire, C19)
+            let id = ChitchatId::new("node-own".to_string(), 0, SocketAddr::from(([10, 0, 0, 9], 7000)));
+            let digest = vec![VNodeDigest { chitchat_id: id, heartbeat: 7, last_gc_version: 0, max_version: 3 }];
+            let empty = PDelta { serialized_len: 1, node_deltas: vec![] };
+            let first = if rng.chance(1, 2) { PMsg::SynAck { digest, delta: empty } } else { PMsg::Ack { delta: empty } };
+            emit(plist("usend", [p_msg(&first), "unreach".to_string()]));
+            emit(plist("usend", [p_msg(&PMsg::BadCluster), "peer".to_string()]));
+        }
         for _ in 0..nops {
             if rng.chance(3, 5) {
                 // a send
